@@ -13,7 +13,13 @@ for d in sorted(glob.glob("/tmp/mut-out/C??-[a-d]")):
         print(name, "not confirmed: skipped")
         continue
     os.makedirs(dst, exist_ok=True)
-    shutil.copy(os.path.join(d, "patch.diff"), os.path.join(dst, "patch.diff"))
+    rebased = False
+    try:
+        rebased = bool(json.load(open(os.path.join(dst, "meta.json"))).get("rebased"))
+    except Exception:
+        pass
+    if not rebased:
+        shutil.copy(os.path.join(d, "patch.diff"), os.path.join(dst, "patch.diff"))
     if os.path.isdir(os.path.join(dst, "demo")):
         shutil.rmtree(os.path.join(dst, "demo"))
     os.makedirs(os.path.join(dst, "demo"))
@@ -43,5 +49,7 @@ for d in sorted(glob.glob("/tmp/mut-out/C??-[a-d]")):
             demo_without_change_rc=c["steps"]["demo_without_change"]["rc"], demo_with_change_rc=c["steps"]["demo_with_change"]["rc"]),
         detection=old.get("detection", {}),
     )
+    if old.get("rebased"):
+        meta["rebased"] = old["rebased"]
     json.dump(meta, open(mp, "w"), indent=1)
     print(name, "imported")
